@@ -45,6 +45,9 @@ pub struct Cfg {
     /// the middle of an object overflows the cache (the object is abandoned) and the next cycle must still deliver it
     #[serde(default)]
     pub small_cache: bool,
+    /// the objects come from streams (re-read at every carousel turn) instead of buffers
+    #[serde(default)]
+    pub stream: bool,
 }
 
 #[derive(Serialize, Deserialize, Clone, Debug)]
@@ -85,6 +88,9 @@ pub fn prepare(c: &Cfg) -> Result<Prepared, String> {
         o.md5 = !c.split_sig;
         o.carousel = Some(if c.interval { Carousel::Interval(1000) } else { Carousel::Delay(500) });
         o.count = c.count.max(1);
+        if c.stream && o.cenc == 0 {
+            o.source = Source::Stream(3);
+        }
         objs.push(o);
     }
     let mut s = SessSpec::basic(if c.inherit { OtiSpec::new(c.scheme, if c.scheme == Scheme::Raptor { 16 } else { e.max(8) * 4 }, if c.scheme == Scheme::Raptor { 64 } else { 8 }, parity, c.inband) } else { OtiSpec::new(Scheme::NoCode, c.fdt_e, 64, 0, true) });
@@ -206,23 +212,26 @@ pub fn configs(thorough: bool) -> Vec<Cfg> {
                                         if with_empty && nobj == 1 && cenc != 0 {
                                             continue;
                                         }
-                                        v.push(Cfg { scheme, nobj, inband, cenc, interval, full_fdt, fdt_e, with_empty, count, interleave, fdt_cenc: 0, split_sig: false, inherit: false, sess_var: 0, small_cache: false });
+                                        v.push(Cfg { scheme, nobj, inband, cenc, interval, full_fdt, fdt_e, with_empty, count, interleave, fdt_cenc: 0, split_sig: false, inherit: false, sess_var: 0, small_cache: false, stream: false });
                                         if count == 1 && interleave == 1 && fdt_e == 1424 {
                                             for sess_var in [1u8, 2, 3] {
-                                                v.push(Cfg { scheme, nobj, inband, cenc, interval, full_fdt, fdt_e, with_empty, count, interleave, fdt_cenc: 0, split_sig: false, inherit: false, sess_var, small_cache: false });
+                                                v.push(Cfg { scheme, nobj, inband, cenc, interval, full_fdt, fdt_e, with_empty, count, interleave, fdt_cenc: 0, split_sig: false, inherit: false, sess_var, small_cache: false, stream: false });
                                             }
                                         }
+                                        if cenc == 0 && fdt_e == 1424 {
+                                            v.push(Cfg { scheme, nobj, inband, cenc, interval, full_fdt, fdt_e, with_empty, count, interleave, fdt_cenc: 0, split_sig: false, inherit: false, sess_var: 0, small_cache: false, stream: true });
+                                        }
                                         if cenc == 0 && count == 1 && interleave == 1 && !with_empty && fdt_e == 1424 && scheme != Scheme::Raptor {
-                                            v.push(Cfg { scheme, nobj, inband, cenc, interval, full_fdt, fdt_e, with_empty, count, interleave, fdt_cenc: 0, split_sig: false, inherit: false, sess_var: 0, small_cache: true });
+                                            v.push(Cfg { scheme, nobj, inband, cenc, interval, full_fdt, fdt_e, with_empty, count, interleave, fdt_cenc: 0, split_sig: false, inherit: false, sess_var: 0, small_cache: true, stream: false });
                                         }
                                         if cenc == 0 && count == 1 && interleave == 1 && !with_empty && fdt_e == 1424 {
-                                            v.push(Cfg { scheme, nobj, inband, cenc, interval, full_fdt, fdt_e, with_empty, count, interleave, fdt_cenc: 0, split_sig: false, inherit: true, sess_var: 0, small_cache: false });
+                                            v.push(Cfg { scheme, nobj, inband, cenc, interval, full_fdt, fdt_e, with_empty, count, interleave, fdt_cenc: 0, split_sig: false, inherit: true, sess_var: 0, small_cache: false, stream: false });
                                         }
                                         if cenc != 0 && count == 1 && interleave == 1 {
-                                            v.push(Cfg { scheme, nobj, inband, cenc, interval, full_fdt, fdt_e, with_empty, count, interleave, fdt_cenc: 0, split_sig: true, inherit: false, sess_var: 0, small_cache: false });
+                                            v.push(Cfg { scheme, nobj, inband, cenc, interval, full_fdt, fdt_e, with_empty, count, interleave, fdt_cenc: 0, split_sig: true, inherit: false, sess_var: 0, small_cache: false, stream: false });
                                         }
                                         if count == 1 && interleave == 1 && (thorough || fdt_e == 512) {
-                                            v.push(Cfg { scheme, nobj, inband, cenc, interval, full_fdt, fdt_e, with_empty, count, interleave, fdt_cenc: 1 + (nobj as u8 % 3), split_sig: false, inherit: false, sess_var: 0, small_cache: false });
+                                            v.push(Cfg { scheme, nobj, inband, cenc, interval, full_fdt, fdt_e, with_empty, count, interleave, fdt_cenc: 1 + (nobj as u8 % 3), split_sig: false, inherit: false, sess_var: 0, small_cache: false, stream: false });
                                         }
                                     }
                                 }
